@@ -76,6 +76,44 @@ def parse_internal_harness(tier):
     h.replay = replay
     return h
 
+def depth_counter_harness():
+    """P8: the real Depth_Counter constructor / destructor from an arbitrary depth"""
+    import re
+    roots = [P + r'Depth_Counter::Depth_Counter\(', P + r'Depth_Counter::~Depth_Counter\(']
+    stubs = [r'eval_error::eval_error\(', r'File_Position::File_Position']
+    cuts = [r'eval_error::~eval_error']
+    g, info = core.translate(FAM, roots, stubs + core.STRING_MODEL, tag='P8_probe', cuts=cuts)
+    ext = [e.split('|')[0].strip() for e in info['ext']]
+    def opt(pat, dflt):
+        m = [e for e in ext if re.search(pat, e)]
+        return ('F_' + core.cname(m[0])) if m else dflt
+    d = {'DC_CTOR': core.csym(FAM, roots[0]), 'DC_DTOR': core.csym(FAM, roots[1]), 'EE_CTOR3': opt(r'eval_errorC[12]ERKNSt7__cxx1112basic_string.*File_Position', 'unused_ee_ctor3'), 'FILE_POSITION': opt(r'13File_PositionC[12]Eii', 'unused_file_position'),
+         'STRING_LITERALS_OPAQUE': 1}
+    h = Harness('P8.Depth_Counter', FAM, roots, 'c01_depth.c', stubs=stubs, cuts=cuts, shapes=[dict(d, _tag='any depth', _witness=('witness: limit exceeded', 'witness: within the limit'))], opts=['--unwind', str(100)], timeout=120, mem_gb=4,
+                string_model=True, inputs=['d0'], note='current depth symbolic (any value), every other byte of the parser object symbolic')
+    h.need_globals = ['_ZTIN10chaiscript9exception10eval_errorE']
+    return h
+
+def obligations(tier):
+    """P9 - a structural lemma read off the IR call graph of the current tree (NOT a solver verdict): every cycle of the parser's recursion passes a Depth_Counter"""
+    from irbmc.prop import Obligation
+    import time
+    def fn(tier):
+        from irbmc import callgraph
+        t0 = time.time()
+        r = callgraph.analyse(core.fread(FAM.build()), dict(core.symbols(FAM)))
+        wall = time.time() - t0
+        detail = 'call graph of %d parser members (%d reachable from parse_internal, %d edges); %d members start with a Depth_Counter: %s' % (r['members'], r['reachable_from_parse_internal'], r['edges'], r['counted'], ', '.join(r['counted_names']))
+        if not r['ctor_found'] or not r['roots'] or r['counted'] == 0:
+            return [dict(name='P9', harness='P9.recursion_is_depth_counted', shape='IR call graph', verdict='INCONCLUSIVE', why='Depth_Counter constructor / parse_internal not found in the IR (parser restructured)', wall=wall, detail=detail)]
+        if r['cycle']:
+            names = core.demangle(r['cycle'])
+            short = ' -> '.join(n.split('>::')[-1].split('(')[0] for n in names)
+            return [dict(name='P9', harness='P9.recursion_is_depth_counted', shape='IR call graph', verdict='CEX', wall=wall, detail=detail, witness_ok=True,
+                         failed=[dict(id='P9', desc='C01: every cycle of the parser\'s recursion passes a Depth_Counter as the first thing a member does (structural lemma on the IR call graph): uncounted cycle ' + short, kind='violation')])]
+        return [dict(name='P9', harness='P9.recursion_is_depth_counted', shape='IR call graph', verdict='HOLDS', wall=wall, detail=detail + ' - removing them leaves the graph acyclic. STRUCTURAL LEMMA (graph walk over the IR of the current tree), not a solver verdict; with P8 it bounds native recursion by limit x longest uncounted chain per parser object', witness_ok=True)]
+    return [Obligation('P9.recursion_is_depth_counted', fn)]
+
 def harnesses(tier):
     ns = [0, 1, 2, 3, 4] if tier == 'quick' else [0, 1, 2, 3, 4, 5, 6]
     hs = []
@@ -83,8 +121,9 @@ def harnesses(tier):
               'Quoted_String_', 'Single_Quoted_String_', 'Id_']:
         hs.append(lex_harness(k, ns))
     hs.append(parse_internal_harness(tier))
+    hs.append(depth_counter_harness())
     return hs
 
 ASSUMPTIONS = ['clang-14 -O1 lowering of chaiscript_parser.hpp', 'eval_error constructors/destructor are cut (pair)',
                'SkipComment/SkipWS inside their callers are contract stubs (any in-bounds forward move); the contracts are asserted on the real functions by their own harnesses']
-OUTSIDE = ['inputs longer than N bytes beyond the cursor (claims are per kernel from an arbitrary cursor, not per whole file)']
+OUTSIDE = ['inputs longer than N bytes beyond the cursor (claims are per kernel from an arbitrary cursor, not per whole file)', 'the depth counter is per parser object: string interpolation parses the embedded code with a fresh parser (and counter); that a quoted string inside ${} cannot nest a further interpolation is the lexer\'s behaviour (observed, not decided)', 'P9 is a structural lemma over the IR call graph, not a solver verdict; the amount of native stack one level needs']
